@@ -237,6 +237,7 @@ def main():
     ap.add_argument("--out", default=None)
     ap.add_argument("--timeout", type=int, default=900)
     ap.add_argument("--list", action="store_true")
+    ap.add_argument("--lines", default="", help="only the sites on these source lines (re-test of recorded mutants)")
     a = ap.parse_args()
     props = a.props.split(",")
     funcs = [f for f in a.funcs.split(",") if f]
@@ -245,6 +246,9 @@ def main():
     sites = find_sites(src, funcs)
     if a.ops:
         sites = [s for s in sites if s[3] in a.ops.split(",")]
+    if a.lines:
+        want = {int(v) for v in a.lines.split(",")}
+        sites = [s for s in sites if s[5] in want]
     rng = random.Random("%s/%s/%s" % (a.file, a.funcs, a.seed))
     rng.shuffle(sites)
     sites = sites[: a.max]
